@@ -224,6 +224,10 @@ class _CiderKS:
                 return uks_grad.DFGradients(self)
             else:
                 return uks_grad.Gradients(self)
+        else:
+            raise NotImplementedError(
+                "CIDER nuclear gradients are implemented for RKS and UKS only"
+            )
 
     Gradients = nuc_grad_method
 
